@@ -25,6 +25,12 @@ def judge_chunking(case, impl, model, spec):
     # a single line cannot show a chunking dependence; the group comparison (cross) does
     return ("correspondence", "implementation differs from the model on this chunking")
 
+def judge_c02(case, impl, model, spec):
+    r = _trace.c02_judge(case, impl)
+    if r:
+        return ("violation", r)
+    return ("correspondence", "implementation differs from the model although every PES payload is delivered exactly")
+
 COMMON_TRUSTED = [
     "Coq 8.16.1 kernel (coqc); vm_compute for finite sweeps and case evaluation; no native_compute",
     "axioms: none (every property theorem is 'Closed under the global context')",
@@ -89,6 +95,23 @@ def r_c14(toks):
     return f"{'run_pes' if toks[0] == 'PES' else 'run_ppc'} false {hex_to_coq(toks[1])}"
 
 PROPS = {
+    "C02": dict(
+        props_files=["Props/C02.v"],
+        suites=["C02"],
+        render=r_stream,
+        judge=judge_c02,
+        judge_always=True,
+        rule="valid streams from the muxer with ground truth: 1..4 programs x 1..3 streams, 1..5 PES packets per stream with "
+             "payload sizes in {0, 1, exactly filling one / two transport packets with 9/14/19-byte headers, 2..40, 150..200, random "
+             "up to 900}, header shapes (no PTS / PTS / PTS+DTS / extra header bytes / header-less stream ids, bounded and unbounded "
+             "length), four packetisation styles (max, random 1..184, tiny 1..8, header-exact first chunk), adaptation-field stuffing, "
+             "payload-less PCR packets, random interleaving of PIDs, repeated PAT/PMT, null packets, random push boundaries; half with "
+             "deep header observation; the implementation's deliveries are re-assembled and compared with the multiplexed payloads; "
+             "distinct = distinct case lines",
+        trusted=["harness/src/mux.rs: the muxer and its ground truth (independent of the crate under test)",
+                 "bin/trace.py c02_judge: re-assembly predicate on the implementation's trace"],
+        assumptions=["each PES header lies wholly within the transport packet that starts it (as the property states)"],
+    ),
     "C06": dict(
         props_files=["Props/C06.v"],
         suites=["C06"],
